@@ -16,16 +16,17 @@ func init() {
 	register(&RuleSet{
 		Meta: core.PropertyMeta{
 			ID: "C07",
-			Explanation: "Arithmetic panics (division by zero, nil *big.Int, slice bounds), third-party code, the RLP decoder's internals and resource exhaustion are NOT decided. Decided, over all repository code reachable from DeliverTx/CheckTx/BeginBlock/EndBlock/Commit (live handlers only), four structural panic classes: " +
+			Explanation: "Arithmetic panics (nil *big.Int, index arithmetic other than the padding idiom, divisions other than those of C07.divzero), third-party code, the RLP decoder's internals and resource exhaustion are NOT decided. Decided, over all repository code reachable from DeliverTx/CheckTx/BeginBlock/EndBlock/Commit (live handlers only), four structural panic classes: " +
 				"(inventory) every explicit panic / log.Panic* / log.Fatal* / os.Exit site is classified: `io` = dominated by the error edge of a database, tree or encoder call inside a storage package (this node's own data), or listed in the confirmed table with a reason; an unlisted site is a violation, so a new panic on an input path cannot appear silently; " +
 				"(precheck) a state mutator that can panic on its arguments (derived: a non-io panic in it or in its same-module callees) is 'partial'; every call of a partial mutator from a live handler's deliver block must be dominated by the outcome of its registered pre-check sibling on the same arguments (CheckMint→PairMint, CheckBurn→PairBurn, CheckCreate→PairCreate, IsBlockedPubKey→ChangePubKey, WaitList.Get≠nil→Waitlist.Delete, symbol-exists→Recreate*, IsOrderAlreadyUsed→PairRemoveLimitOrder …); a partial mutator with no registered pre-check is a violation; " +
 				"(feeswap) the amount handed to the fee swap PairSellWithOrders(commissionCoin, base, amount, 0) is, on every acyclic path, an amount that a successful CalculateCommission / CheckSwap on the same pool produced or validated — selling an unvalidated amount panics inside the pool (found and repaired: the balance-capped failure fee was validated only for custom-coin price tables; 1 pip of a pool token crashed DeliverTx); " +
 				"(nil) in block-level protocol code (BeginBlock/EndBlock outside RunTx) the result of a may-return-nil state lookup is not dereferenced unless dominated by a nil test of that value or listed with the invariant that excludes nil; " +
 				"(assert) single-value type assertions on tx.decodedData in RunTx are dominated by the matching tx.Type test; " +
 				"(pricenil) CommissionData of every live type — evaluated by RunTx before the data is validated — returns only price-table fields and arithmetic over them, never a map element, nil or a value of unknown origin; " +
-				"(pricecoin) a commission vote is recorded only for the base coin or a coin that has a swap pool with the base coin: RunTx converts every fee through that pool without checking that it exists.",
+				"(pricecoin) a commission vote is recorded only for the base coin or a coin that has a swap pool with the base coin: RunTx converts every fee through that pool without checking that it exists; " +
+				"(pad) a slice bound, make length or index of the form `constant − n` with n derived from a len(…) — the fixed-width padding of a signature part or check lock decoded from a transaction — is governed by a comparison that excludes n > constant, or n is the length of an array, or the integer was range-checked by crypto.ValidateSignatureValues.",
 			Assumptions: append([]string{"a pre-check sibling rejects exactly the arguments on which its mutator panics (their arithmetic is not compared)"}, stdAssumptions...),
-			Rules:       []string{"C07.inventory", "C07.precheck", "C07.feeswap", "C07.nil", "C07.assert", "C07.pricenil", "C07.pricecoin", "C07.divzero"},
+			Rules:       []string{"C07.inventory", "C07.precheck", "C07.feeswap", "C07.nil", "C07.assert", "C07.pricenil", "C07.pricecoin", "C07.divzero", "C07.pad"},
 		},
 		Run: runC07,
 	})
@@ -145,7 +146,7 @@ func ioGoverned(c *core.Ctx, in ssa.Instruction) string {
 			if call == nil {
 				continue
 			}
-			name := core.CalleeName(&call.Call)
+			name := core.CalleeName(core.NormCall(&call.Call))
 			if name == "" {
 				continue
 			}
@@ -311,7 +312,7 @@ func factCallOutcome(facts []core.Fact, method string, want func(cf core.CallFac
 			if call == nil {
 				continue
 			}
-			name := core.CalleeName(&call.Call)
+			name := core.CalleeName(core.NormCall(&call.Call))
 			if i := strings.LastIndex(name, "."); i >= 0 {
 				name = name[i+1:]
 			}
@@ -319,7 +320,7 @@ func factCallOutcome(facts []core.Fact, method string, want func(cf core.CallFac
 				continue
 			}
 			isNilNow := (bin.Op == token.EQL) == f.Truth
-			cf := core.CallFact{Fact: f, Call: call, Name: core.CalleeName(&call.Call)}
+			cf := core.CallFact{Fact: f, Call: call, Name: core.CalleeName(core.NormCall(&call.Call))}
 			if want(cf, true, isNilNow) {
 				return true
 			}
@@ -609,6 +610,7 @@ func runC07(c *core.Ctx) {
 	}
 	sort.Slice(fns, func(i, j int) bool { return fns[i].String() < fns[j].String() })
 	c.Stats["crash_reachable_functions"] = len(fns)
+	checkLenDifferences(c, "C07.pad", fns)
 	if len(fns) < 1000 {
 		c.Unk("C07.inventory", "reach-floor", token.NoPos, fmt.Sprintf("only %d functions reachable from the ABCI methods (floor 1000)", len(fns)))
 	}
@@ -748,7 +750,7 @@ func checkV2Wiring(c *core.Ctx, rule string) {
 		return
 	}
 	v3, other := 0, 0
-	for _, s := range core.Sites(init) {
+	for _, s := range c.GroupSites(init) {
 		switch s.Callee {
 		case core.PkgState + ".NewStateV3":
 			v3++
@@ -763,7 +765,7 @@ func checkV2Wiring(c *core.Ctx, rule string) {
 		for _, w := range c.FieldWrites(st, "SwapV2") {
 			if stt, ok := w.Instr.(*ssa.Store); ok && core.ShortFn(w.Fn) == core.PkgState+".newStateForTreeV2" {
 				for _, o := range core.Origins(stt.Val) {
-					if call, ok := o.(*ssa.Call); ok && core.CalleeName(&call.Call) == core.PkgState+"/swap.NewV2" {
+					if call, ok := o.(*ssa.Call); ok && core.CalleeName(core.NormCall(&call.Call)) == core.PkgState+"/swap.NewV2" {
 						good = true
 					}
 				}
@@ -905,10 +907,10 @@ func checkPrechecks(c *core.Ctx, rule string) {
 
 func isBigZero(v ssa.Value) bool {
 	call, ok := core.Unwrap(v).(*ssa.Call)
-	if !ok || core.CalleeName(&call.Call) != "math/big.NewInt" || len(call.Call.Args) != 1 {
+	if !ok || core.CalleeName(core.NormCall(&call.Call)) != "math/big.NewInt" || len(core.NormCall(&call.Call).Args) != 1 {
 		return false
 	}
-	k, ok := core.ConstInt(call.Call.Args[0])
+	k, ok := core.ConstInt(core.NormCall(&call.Call).Args[0])
 	return ok && k == 0
 }
 
@@ -1058,7 +1060,7 @@ func validatedAmount(c *core.Ctx, p core.CFGPath, v ssa.Value, sell *core.Site) 
 	// (a) first result of CalculateCommission with nil error response on this path
 	if ex, ok := v.(*ssa.Extract); ok {
 		if call, ok := ex.Tuple.(*ssa.Call); ok {
-			name := core.CalleeName(&call.Call)
+			name := core.CalleeName(core.NormCall(&call.Call))
 			switch {
 			case strings.HasSuffix(name, ".CalculateCommission") && ex.Index == 0:
 				if edgeSaysNil(p, call, 2) {
@@ -1077,13 +1079,13 @@ func validatedAmount(c *core.Ctx, p core.CFGPath, v ssa.Value, sell *core.Site) 
 	if v.Referrers() != nil {
 		for _, r := range *v.Referrers() {
 			call, ok := r.(*ssa.Call)
-			if !ok || !strings.HasSuffix(core.CalleeName(&call.Call), ".CheckSwap") || len(call.Call.Args) != 6 {
+			if !ok || !strings.HasSuffix(core.CalleeName(core.NormCall(&call.Call)), ".CheckSwap") || len(core.NormCall(&call.Call).Args) != 6 {
 				continue
 			}
-			if core.Unwrap(call.Call.Args[3]) != v || !onPath(p, call) {
+			if core.Unwrap(core.NormCall(&call.Call).Args[3]) != v || !onPath(p, call) {
 				continue
 			}
-			if k, ok := core.Unwrap(call.Call.Args[5]).(*ssa.Const); !ok || k.Value == nil || k.Value.String() != "false" {
+			if k, ok := core.Unwrap(core.NormCall(&call.Call).Args[5]).(*ssa.Const); !ok || k.Value == nil || k.Value.String() != "false" {
 				continue
 			}
 			if edgeSaysNil(p, call, 0) {
@@ -1357,7 +1359,7 @@ func derefsOf(v ssa.Value) []ssa.Instruction {
 					out = append(out, x)
 				}
 			case *ssa.Call:
-				if sc := x.Call.StaticCallee(); sc != nil && sc.Signature.Recv() != nil && len(x.Call.Args) > 0 && x.Call.Args[0] == v {
+				if sc := x.Call.StaticCallee(); sc != nil && sc.Signature.Recv() != nil && len(core.NormCall(&x.Call).Args) > 0 && core.NormCall(&x.Call).Args[0] == v {
 					if !nilSafeMethod(sc) {
 						out = append(out, x)
 					}
@@ -1624,13 +1626,13 @@ func checkPriceTotal(c *core.Ctx, rule string) {
 			why = "a map element / multi-value result (" + describe(v) + "): nil for a missing key"
 			return false
 		case *ssa.Call:
-			name := core.CalleeName(&x.Call)
+			name := core.CalleeName(core.NormCall(&x.Call))
 			switch {
 			case name == "math/big.NewInt":
 				return true
 			case strings.HasPrefix(name, "(*math/big.Int)."):
 				// z.Op(x, y): the receiver and the operands must be total
-				for _, a := range x.Call.Args {
+				for _, a := range core.NormCall(&x.Call).Args {
 					if isBigIntPtr(a.Type()) && !total(a, d, seen) {
 						return false
 					}
@@ -1739,7 +1741,7 @@ func checkPriceCoin(c *core.Ctx, rule string) {
 				}
 				switch methodNameOfCall(call) {
 				case "IsBaseCoin":
-					if strings.HasSuffix(core.Path(call.Call.Args[0]), ".Coin") {
+					if strings.HasSuffix(core.Path(core.NormCall(&call.Call).Args[0]), ".Coin") {
 						okPath = true
 					}
 				case "SwapPoolExist":
